@@ -76,3 +76,63 @@ Definition benign_run (i : input) (c : config) (args : list string) : bool :=
     else Nat.ltb (classify_add cfg r2 (in_src i)) 3
   | _ => true
   end.
+
+(* ---- the same for parameter names: at every AddVar, the import-driven renames (q -> qMoqParam)
+   of the variables already in the scope land on no name that is taken (the residual family of
+   C12_add_var_keeps_distinct, as a computed guard on the whole run) ---- *)
+Definition names_step_ok (cfg : rcfg) (r : registry) (sc : scope) (t : ty) : bool :=
+  match populate cfg r (refs t) [] with
+  | Ok (r1, imps) => nodupb (map v_name (rename_for_imports (sc_vars sc) (map (imp_qualifier r1) imps)))
+  | _ => true
+  end.
+
+Fixpoint names_vars_ok (cfg : rcfg) (r : registry) (sc : scope) (vs : list (string * ty)) (suffix : string) : bool :=
+  match vs with
+  | [] => true
+  | (n, t) :: rest =>
+    names_step_ok cfg r sc t &&
+    match add_var cfg r sc n t suffix with
+    | Ok (r1, sc1, _) => names_vars_ok cfg r1 sc1 rest suffix
+    | _ => true
+    end
+  end.
+
+Definition names_method_ok (cfg : rcfg) (r : registry) (m : method) : bool :=
+  names_vars_ok cfg r empty_scope (s_params (m_sig m)) "" &&
+  match add_vars cfg r empty_scope (s_params (m_sig m)) "" with
+  | Ok (r1, sc1) => names_vars_ok cfg r1 sc1 (s_results (m_sig m)) "Out"
+  | _ => true
+  end.
+
+Fixpoint names_methods_ok (cfg : rcfg) (r : registry) (ms : list method) : bool :=
+  match ms with
+  | [] => true
+  | m :: rest =>
+    names_method_ok cfg r m &&
+    match method_data cfg r m with
+    | Ok (r1, _) => names_methods_ok cfg r1 rest
+    | _ => true
+    end
+  end.
+
+Fixpoint names_collect_ok (i : input) (cfg : rcfg) (r : registry) (args : list string) : bool :=
+  match args with
+  | [] => true
+  | np :: rest =>
+    match assoc (fst (parse_interface_name np)) (in_lookup i) with
+    | Some (LIface _ _ tps ms) =>
+      names_methods_ok cfg r ms &&
+      match methods_data cfg r ms with
+      | Ok (r1, _) =>
+        match type_params cfg r1 tps with
+        | Ok (r2, _) => names_collect_ok i cfg r2 rest
+        | _ => true
+        end
+      | _ => true
+      end
+    | _ => true
+    end
+  end.
+
+Definition names_run_ok (i : input) (c : config) (args : list string) : bool :=
+  names_collect_ok i (rcfg_of i c) [] args.
